@@ -85,6 +85,8 @@ def _eval(F, b, atoms, assign, depth, args=None):
                 if not (isinstance(a, bool) and isinstance(c, bool)):
                     raise _Unknown()
                 env[pl["l"]] = {"BitOr": a or c, "BitAnd": a and c, "Eq": a == c, "Ne": a != c, "BitXor": a != c}[rv["op"]]
+            elif k == "agg" and rv["kind"].get("variant") in ("Ok", "Err") and str(rv["kind"].get("adt", "")).endswith("Result"):
+                env[pl["l"]] = ("variant", rv["kind"]["variant"])
             elif k in ("ref", "agg", "discr", "len", "binop", "unop", "repeat", "nullop", "addr"):
                 env[pl["l"]] = ("opaque", pl["l"])
             else:
@@ -93,6 +95,8 @@ def _eval(F, b, atoms, assign, depth, args=None):
         k = t["k"]
         if k == "return":
             v = env.get(0)
+            if isinstance(v, tuple) and v and v[0] == "variant":
+                return v[1]              # "Ok" / "Err" of a Result-returning gate
             if not isinstance(v, bool):
                 raise _Unknown()
             return v
@@ -117,7 +121,8 @@ def _eval(F, b, atoms, assign, depth, args=None):
             else:
                 cb = _closure_target(F, b, t) or F.callee_body(t)
                 if cb is not None and _returns_bool(cb):
-                    env[dest] = _eval(F, cb, atoms, assign, depth + 1)
+                    v = _eval(F, cb, atoms, assign, depth + 1)
+                    env[dest] = ("variant", v) if isinstance(v, str) else v
                 else:
                     env[dest] = ("opaque", dest)
             if t.get("target") is None:
@@ -144,8 +149,9 @@ def evaluate(F, body, assign):
 
 
 def _returns_bool(b):
+    """bool, or a `Result` (summarised as the variant returned: a gate `fn check(x) -> Result<(), E>`)"""
     ty = b.lty(0)
-    return bool(ty) and ty.get("s") == "bool"
+    return bool(ty) and (ty.get("s") == "bool" or str(ty.get("s", "")).startswith("std::result::Result<"))
 
 
 def truth_table(F, body, atom_names):
